@@ -32,6 +32,18 @@ class Design(object):
         self.hist = M.degree_multiset(rows)
         self.digest = sha(M.rows_key(rows))[:16]
 
+    def suspicious_starts(self):
+        """Retained vertices from which trouble is one step away, if the graph has any: vertices with an arc into a
+        vertex without out-arcs (a dangling arc), and vertices whose only arc leads to a vertex with a single arc (a
+        possible information-free chain). Used to place writes where a wrongly trimmed graph would show."""
+        live = set(self.live)
+        out = []
+        for v in self.live:
+            succ = [w for w in self.rows[v] if w >= 0]
+            if any(w not in live for w in succ):
+                out.append(v)
+        return out
+
     def accessor(self, proxy=True):
         return self.acc if proxy else self.plain
 
@@ -226,8 +238,39 @@ def op_design(op, world, ctx):
             ctx.stats.inc("probes", "design:mask-mutated")
         design = Design(op["id"], k, rows, generated=True, threshold=op["threshold"], source=kind)
         design.raw = accessor        # the very object the library handed back (its owner may edit it in place)
-        model = M.coding_graph_model([bool(x) for x in snapshot.tolist()], k, op["threshold"])
-        ctx.stats.inc("probes", "design:equals-fixed-point-model" if model == rows else "design:differs-from-model")
+        if k <= 5:     # reach probe only (C03 is not claimed); the pure-Python model is too slow for larger orders
+            model = M.coding_graph_model([bool(x) for x in snapshot.tolist()], k, op["threshold"])
+            ctx.stats.inc("probes", "design:equals-fixed-point-model" if model == rows else "design:differs-from-model")
+    elif kind == "trim-inplace" and ctx.prop != "C04":
+        # readers keep using a graph object while its owner screens arcs in place: the very array the library has been
+        # given before is edited by remove_nasty_arc; the design stays in use with its new arc set
+        target = world.designs.get(op["target"])
+        if target is None:
+            rec["out"] = {"kind": "skipped"}
+            return rec
+        shared = target.accessor(world.proxy)
+        latter_map = dsw.accessor_to_latter_map(numpy.array(target.rows, dtype=int))
+        done = 0
+        for _ in range(op["removals"]):
+            ctx.stats.lib_calls += 1
+            out = budgeted(dsw.remove_nasty_arc, dict(accessor=shared, latter_map=latter_map, has_insertion=op["ins"],
+                                                       has_deletion=op["del"]), 5000000)
+            if out.kind != "returned":
+                break
+            done += 1
+        rows = numpy.asarray(shared).tolist()
+        if not M.check_rows_shape(rows, target.k):
+            ctx.stats.inc("probes", "design:trim-malformed")
+            del world.designs[op["target"]]
+            return rec
+        target.rows, target.generated, target.source = rows, False, "trim-inplace"
+        target.acc[...] = numpy.array(rows, dtype=int)
+        target.plain[...] = numpy.array(rows, dtype=int)
+        target.live, target.hist = M.live_vertices(rows), M.degree_multiset(rows)
+        target.digest = sha(M.rows_key(rows))[:16]
+        ctx.stats.inc("probes", "design:trim-inplace-kept")
+        rec["out"], rec["res"] = {"kind": "returned", "removed": done}, target.digest
+        return rec
     elif kind == "trim-inplace":
         # the owner of a generated graph screens its arcs in place (as experiments/code_repair.py does); the edited graph
         # is no longer a generation result, so the design is retired
@@ -489,7 +532,7 @@ def read_repair(op, world, design, ctx):
         heap = float("inf")      # the natural way to ask for an unrestrictive limit
     kwargs = dict(dna_sequence=read, accessor=design.accessor(world.proxy), start_index=_start(op),
                   observed_length=k, vt_check=op.get("check"), has_indel=op.get("has_indel", False), heap_size=heap)
-    row_bound, jumps = repair_bounds(len(read), k, 20000 if heap == float("inf") else heap)
+    row_bound, jumps = repair_bounds(len(read), k, 4000 if heap == float("inf") else heap)
     ctx.stats.lib_calls += 1
     out = budgeted(dsw.repair_dna, kwargs, jumps * ctx.budget_scale, row_bound if world.proxy else None)
     rec = {"out": out.brief(), "res": sha(norm_result(out.value))[:16] if out.kind == "returned" else None}
